@@ -18,7 +18,7 @@ for pid in ids:
             "evidence_file": "/verif/evidence/%s.json" % pid,
             "replay_cmd_template": "python3 tools/replay.py {path}",
             "engine": "coq-proof+correspondence",
-            "level_claimed": {"category": "proof", "text": m.LEVEL_TEXT, "design_ref": "DESIGN.md section 4, " + pid},
+            "level_claimed": {"category": getattr(m, "LEVEL_CATEGORY", "proof"), "text": m.LEVEL_TEXT, "design_ref": "DESIGN.md section 4, " + pid},
             "level_note": m.LEVEL_NOTE,
             "technique": m.TECHNIQUE,
         })
